@@ -17,7 +17,7 @@ LEVEL_NOTE = ("Trusted: the insert-only alignment (bounded backtracking) accepts
 RULE = ("case = (a) generated tree, sizes tiny/8K/64K/256K, CRLF and multi-byte variants, or (b) 1-4 corpus files, some with "
         "UTF-8-preserving mutations; one edit run with 0-6 benign faults (short on n-th READ/WRITE, EINTR on n-th READ/WRITE/OPEN). "
         "Non-trivial = at least one token inserted; distinct = case index.")
-PROBES = ["bom_file", "short_write_retried", "short_read_retried", "eintr_retried", "multi_drain", "crlf_file", "corpus_world", "mutated_corpus",
+PROBES = ["id_range_runs_out", "bom_file", "short_write_retried", "short_read_retried", "eintr_retried", "multi_drain", "crlf_file", "corpus_world", "mutated_corpus",
           "large_file_256k", "existing_refs_present"]
 ASSUMPTIONS = ["no fault other than short counts / EINTR is injected here (strict equality otherwise)"]
 DEADLINE = {"quick": 200, "thorough": 3000}
@@ -54,6 +54,10 @@ def gen(rng):
                                    unicode_p=rng.choice([0.0, 0.0, 0.3, 0.9]))
         if "k256" in sizes:
             tags.add("large_file_256k")
+        if rng.random() < 0.06 and world.cfg_uses_lock(wm["cfg"]):
+            # the ID range runs out in the middle of the run: whatever is (not) written must still be original + tokens
+            wm["lock"] = core.lock_text(0xFFFFFFFF - rng.randrange(0, 3))
+            tags.add("id_range_runs_out")
         if any("\r\n" in s[-1] for segs in wm["files"].values() for s in segs):
             tags.add("crlf_file")
     else:
@@ -142,6 +146,8 @@ def evaluate(wm, knobs, plan, ctx):
         V("bystander-changed", "%s %s" % (p, how))
     if res.mode != "exited":
         V("abnormal-termination", "edit run ended by %s" % res.ending())
+    elif res.status != 0 and not (wm.get("lock") and (core.read_lock(wm["lock"]) or 0) >= 0xFFFFFFF0):
+        V("edit-failed", "edit run under a benign schedule exited %d" % res.status)
     return viols, {"ntok": ntok, "fired": fired, "res": res}
 
 
